@@ -19,7 +19,7 @@ from harness.c08 import network
 from harness.c09 import check_pd
 
 CRATES = ["tx3-tir", "tx3-cardano"]
-ASSUMPTIONS = ["C01: programs = the 8 corpus programs of /verif/corpus x 3 layouts (enumerated, not solver-quantified); integer arguments and UTxO lovelace/token amounts symbolic in [0, 2^16) (quick) / [0, 2^40) (thorough), the fee below 2^32; one UTxO per input block; addresses, policies and byte arguments concrete; byte-level CBOR (pallas' encoder) and min_utxo are outside"]
+ASSUMPTIONS = ["C01: programs = the 13 corpus programs of /verif/corpus x 3 layouts (enumerated, not solver-quantified); integer arguments and UTxO lovelace/token amounts symbolic in [0, 2^16) (quick) / [0, 2^40) (thorough), the fee below 2^32; one UTxO per input block; addresses, policies and byte arguments concrete; byte-level CBOR (pallas' encoder) and min_utxo are outside"]
 
 HERE = os.path.dirname(os.path.dirname(os.path.abspath(__file__)))
 FRONTEND = os.path.join(HERE, ".cache", "frontend-target", "release", "tx3-verif-frontend")
@@ -406,8 +406,98 @@ def s_p08(ctx, T, tx, fee, F, A, label):
     check_outputs(ctx, body, [dict(address=ADDR["bob"], coin=g + p - q - F), dict(address=ADDR["alice"], coin=q)], label)
 
 
+def s_p09(ctx, T, tx, fee, F, A, label):
+    x, y = sym(ctx, "x"), sym(ctx, "y")
+    lov = sym(ctx, "vault.lovelace")
+    d0, d2, d3 = sym(ctx, "vault.first"), sym(ctx, "vault.third"), sym(ctx, "vault.fourth")
+    ctx.eng.assume(lov - F >= 0)
+    datum = T.struct(0, [T.num(d0), T.bytes([0xBE, 0xEF]), T.num(d2), T.num(d3)])
+    args = amap([("x", intarg(T, x)), ("y", intarg(T, y)), ("alice", A("alice"))])
+    body, _ = finish(ctx, tx, args, amap([("vault", utxo(T, 1, lov, datum=datum))]), fee, label)
+    if body is None:
+        return
+    want = [dict(address=ADDR["alice"], coin=lov - F, datum=("constr", 0, [("int", y), ("bytes", [0xBE, 0xEF]), ("int", d2), ("int", x)])),
+            dict(address=ADDR["alice"], coin=z3.BitVecVal(2000000, 128), datum=("constr", 2, [("int", y), ("int", x)])),
+            dict(address=ADDR["alice"], coin=z3.BitVecVal(3000000, 128), datum=("constr", 1, [("int", d2)]))]
+    check_outputs(ctx, body, want, label)
+
+
+def s_p10(ctx, T, tx, fee, F, A, label):
+    b_ = 10 if ctx.tier == "quick" else 32
+    a, b, c = sym(ctx, "a", b_), sym(ctx, "b", b_), sym(ctx, "c", b_)
+    lov = sym(ctx, "src.lovelace")
+    ctx.eng.assume(lov - F >= 0)
+    args = amap([("a", intarg(T, a)), ("b", intarg(T, b)), ("c", intarg(T, c)), ("alice", A("alice"))])
+    body, _ = finish(ctx, tx, args, amap([("src", utxo(T, 1, lov))]), fee, label)
+    if body is None:
+        return
+    want = [dict(address=ADDR["alice"], coin=lov - F, datum=("constr", 0, [("int", -a + b), ("int", a - (b - (c - 1))), ("int", (a + b) - (c + a)), ("int", -(a - b) - c)]))]
+    check_outputs(ctx, body, want, label)
+
+
+def s_p11(ctx, T, tx, fee, F, A, label):
+    q = sym(ctx, "q")
+    lov = sym(ctx, "src.lovelace")
+    ctx.eng.assume(z3.And(lov - q - F >= 0))
+    owner = [0x60] + [0xA1] * 28
+    args = amap([("q", intarg(T, q)), ("owner", T.v("ArgValue", "Address", VecM(owner)))])
+    body, _ = finish(ctx, tx, args, amap([("src", utxo(T, 1, lov))]), fee, label)
+    if body is None:
+        return
+    K = (tuple(POL), tuple(b"TICKET"))
+    script_addr = [0x70] + POL          # testnet enterprise script address of the policy hash
+    want = [dict(address=script_addr, coin=q, assets={K: z3.BitVecVal(1, 128)},
+                 datum=("constr", 0, [("bytes", owner), ("bytes", POL), ("int", q)])),
+            dict(address=owner, coin=lov - q - F, assets={K: z3.BitVecVal(1, 128)})]
+    check_outputs(ctx, body, want, label)
+
+
+def s_p12(ctx, T, tx, fee, F, A, label):
+    eng = ctx.eng
+    idx = eng.choose(3, "index argument")
+    lov = sym(ctx, "src.lovelace")
+    n = [sym(ctx, "numbers%d" % i) for i in range(3)]
+    last, val = sym(ctx, "last"), sym(ctx, "inner.val")
+    eng.assume(lov - F >= 0)
+    datum = T.struct(0, [T.list([T.num(x) for x in n]), T.struct(0, [T.num(val), T.bytes([7, 7])]), T.num(last)])
+    args = amap([("idx", intarg(T, idx)), ("alice", A("alice"))])
+    body, _ = finish(ctx, tx, args, amap([("src", utxo(T, 1, lov, datum=datum))]), fee, label)
+    if body is None:
+        return
+    want = [dict(address=ADDR["alice"], coin=lov - F,
+                 datum=("constr", 0, [("list", [("int", n[2]), ("int", n[idx]), ("int", last)]), ("constr", 0, [("int", val), ("bytes", [7, 7])]), ("int", n[1] - last)]))]
+    check_outputs(ctx, body, want, label)
+
+
+def s_p13(ctx, T, tx, fee, F, A, label):
+    eng = ctx.eng
+    n = sym(ctx, "n")
+    lov = sym(ctx, "src.lovelace")
+    eng.assume(z3.And(lov - F >= 0, n > 0))
+    s_ = [0x31, 0x32, 0x33]
+    args = amap([("s", T.v("ArgValue", "Bytes", VecM(s_))), ("n", intarg(T, n)), ("alice", A("alice"))])
+    body, _ = finish(ctx, tx, args, amap([("src", utxo(T, 1, lov))]), fee, label)
+    if body is None:
+        return
+    K = (tuple(POL), tuple(b"COIN"))
+    bn = check_outputs(ctx, body, [dict(address=ADDR["alice"], coin=lov - F, assets={K: 50 + n},
+                                        datum=("constr", 0, [("bytes", s_ + [0xFF, 0x00]), ("bytes", [0x01] + s_ + s_)]))], label)
+    mint = models.deref(body.fields[bn.index("mint")])
+    ctx.require(mint.variant == "Some", "[%s] mint present" % label, shape="mint dropped")
+    if mint.variant == "Some":
+        tot = None
+        for pk, pp, pv in models.deref(mint.fields[0]).entries:
+            for ak, ap, av in models.deref(pv).entries:
+                q = models.deref(av)
+                tot = q.fields[0] if isinstance(q, Agg) else q
+        ctx.require(tot is not None and True, "[%s] one net mint entry" % label)
+        if tot is not None:
+            ctx.require(z3.SignExt(64, eng.to_bv(tot, 64)) == 50 + n, "[%s] net mint = 100 + n - 50" % label, shape="net mint differs")
+
+
 SPECS = {"p01_int_arith": s_p01, "p02_asset_arith": s_p02, "p03_datum_spread": s_p03, "p04_mint_meta": s_p04,
-         "p05_lists_concat": s_p05, "p06_locals_env": s_p06, "p07_time": s_p07, "p08_two_inputs": s_p08}
+         "p05_lists_concat": s_p05, "p06_locals_env": s_p06, "p07_time": s_p07, "p08_two_inputs": s_p08,
+         "p09_record_order": s_p09, "p10_negate_parens": s_p10, "p11_policy_contexts": s_p11, "p12_nested_access": s_p12, "p13_concat_mint_net": s_p13}
 
 
 def _h(name, fn, bounds, tier="quick", **kw):
